@@ -18,7 +18,7 @@ from __future__ import annotations
 
 from typing import TYPE_CHECKING
 
-from cirq import circuits, ops, protocols, transformers
+from cirq import circuits, ops, transformers
 from cirq.transformers import transformer_api
 
 if TYPE_CHECKING:
@@ -113,8 +113,10 @@ def drop_diagonal_before_measurement(
         new_ops = []
 
         for op in moment:
-            # If this is a measurement, mark these qubits as measured
-            if protocols.is_measurement(op):
+            # If this is a computational basis measurement, mark these qubits as measured.
+            # Other measurement-like operations (Pauli measurements, sub-circuits containing
+            # measurements) do not commute with diagonal gates and break the chain below.
+            if isinstance(op.gate, ops.MeasurementGate):
                 measured_qubits.update(op.qubits)
                 new_ops.append(op)
             # If this is a diagonal gate and ALL of its qubits will be measured, remove it
